@@ -3,6 +3,7 @@ schema meaning the same as on pandas for every LATER validation too (component c
 from contracts.C03_polars_parsers import PolarsAddMissingColumns, PolarsSetDefault
 from contracts.C05_polars_components import PolarsCollectSchemaComponents, PolarsRunSchemaComponentChecks
 
+from contracts.C01_joint_uniqueness import PandasJointUniqueness, PolarsJointUniqueness  # one spec, both back ends
 from contracts.C11_polars_check_output import PolarsPostprocessLazyframeOutput  # null handling of row-wise check outputs (ignore_na)
 
-CONTRACTS = [PolarsCollectSchemaComponents, PolarsRunSchemaComponentChecks, PolarsAddMissingColumns, PolarsSetDefault, PolarsPostprocessLazyframeOutput]
+CONTRACTS = [PolarsCollectSchemaComponents, PolarsRunSchemaComponentChecks, PolarsAddMissingColumns, PolarsSetDefault, PolarsPostprocessLazyframeOutput, PandasJointUniqueness, PolarsJointUniqueness]
